@@ -26,8 +26,19 @@ fn compare_graph(w: &World, g: &Graph) -> Vec<String> {
     if g.n_vertices() != w.nv() {
         d.push(format!("n_vertices {} but the file lists {}", g.n_vertices(), w.nv()));
     }
-    if g.adj.len() != w.nv() || g.rev.len() != w.nv() {
+    // (a scanned count counts the file's lines - blank ones and line breaks inside quoted cells included - so
+    // the adjacency tables may have spare, empty slots beyond the last vertex; never fewer, never used ones)
+    if g.adj.len() < w.nv() || g.rev.len() < w.nv() || g.adj.len() != g.rev.len() {
         d.push(format!("adjacency views have {} / {} entries for {} vertices", g.adj.len(), g.rev.len(), w.nv()));
+    }
+    if g.adj.iter().skip(w.nv()).any(|m| m.iter().next().is_some()) || g.rev.iter().skip(w.nv()).any(|m| m.iter().next().is_some()) {
+        d.push(format!("an adjacency slot beyond the last listed vertex ({}) holds edges", w.nv()));
+    }
+    if g.get_vertex(&VertexId(w.nv())).is_ok() {
+        d.push(format!("vertex {} is not listed, but the graph has a vertex there", w.nv()));
+    }
+    if w.explicit_counts && (g.adj.len() != w.nv() || g.rev.len() != w.nv()) {
+        d.push(format!("adjacency views have {} / {} entries although the configuration says {} vertices", g.adj.len(), g.rev.len(), w.nv()));
     }
     for (i, (a, b, dist)) in w.edges.iter().enumerate() {
         match g.get_edge(&EdgeId(i)) {
@@ -463,6 +474,7 @@ impl Check for C15 {
         w.gz_tables = r.chance(0.5);
         w.gz_misnamed = r.chance(0.15);
         w.text_variant = *r.pick(&[0u8, 0, 0, 1, 2]);
+        w.csv_blank_lines = *r.pick(&[0u8, 0, 0, 1, 2]);
         w.explicit_counts = r.chance(0.4);
         let mut simcfg = sim::SimCfg::default();
         simcfg.sched = sim::SchedMode::Cooperative;
@@ -483,7 +495,11 @@ impl Check for C15 {
         simcfg.max_steps = 400_000;
         // a history, not just one load: the files are regenerated at the same paths (another network of
         // another size) and loaded again in the same process
-        let params = if r.chance(0.35) { json!({"reload_seed": r.next_u64() >> 12}) } else { Value::Null };
+        let mut params = if r.chance(0.35) { json!({"reload_seed": r.next_u64() >> 12}) } else { json!({}) };
+        if r.chance(0.012) {
+            // a size knob: a per-edge table of a megabyte or more (a loader may treat large files differently)
+            params["big_table"] = json!({"rows": r.range(150_000, 420_000), "seed": r.next_u64() >> 12});
+        }
         Case { check: "C15".into(), seed, family: family.to_string(), world: w, batches: vec![], workers: 1, run_parallelism: None, simcfg, recorded: None, params }
     }
     fn run(&self, case: &Case, fatal_fd: i32) -> ChildResult {
@@ -513,6 +529,41 @@ impl Check for C15 {
                 Err(e) => json!({"error": e.to_string()}),
             };
             let mut res = json!({"graph": graph_diffs, "speeds": speed_diffs});
+            if let Some(bt) = case.params.get("big_table").filter(|b| b.is_object()) {
+                let rows = bt["rows"].as_u64().unwrap_or(0) as usize;
+                let mut br = Rng::new(bt["seed"].as_u64().unwrap_or(0) ^ fnv64("C15-big"));
+                let want: Vec<f64> = (0..rows).map(|_| crate::world::q6(1.0 + br.f64() * 130.0)).collect();
+                let mut text = String::with_capacity(rows * 11);
+                for x in &want {
+                    text.push_str(&format!("{}\n", x));
+                }
+                let (path, data) = if w.gz_tables && !w.gz_misnamed {
+                    use std::io::Write;
+                    let mut e = flate2::write::GzEncoder::new(Vec::new(), flate2::Compression::fast());
+                    e.write_all(text.as_bytes()).unwrap();
+                    ("/sim/bigspeeds.txt.gz", e.finish().unwrap())
+                } else {
+                    ("/sim/bigspeeds.txt", text.into_bytes())
+                };
+                let bytes = data.len();
+                sim::with(|s| s.put_file(path, data));
+                sim::set_quiet(false);
+                let big = SpeedTraversalEngine::new(&path, SpeedUnit::KilometersPerHour, None, None);
+                sim::set_quiet(true);
+                res["bigspeeds"] = match &big {
+                    Ok(e) => {
+                        let got: Vec<f64> = e.speed_table.iter().map(|s| s.as_f64()).collect();
+                        if got == want {
+                            json!([])
+                        } else {
+                            let first = got.iter().zip(want.iter()).position(|(a, b)| a != b);
+                            let misplaced = got.iter().zip(want.iter()).filter(|(a, b)| a != b).count();
+                            json!([format!("table of {} rows ({} bytes): {} rows loaded, {} of them are not the value of their row (first at row {:?})", want.len(), bytes, got.len(), misplaced, first)])
+                        }
+                    }
+                    Err(e) => json!({"error": e.to_string()}),
+                };
+            }
             if let Some(rs) = case.params.get("reload_seed").and_then(|x| x.as_u64()) {
                 let w2 = reload_world(w, rs);
                 sim::with(|s| {
@@ -553,11 +604,14 @@ impl Check for C15 {
             if reloaded {
                 *reach.entry("reloaded_after_regeneration".into()).or_insert(0) += 1;
             }
-            for part_key in ["graph", "speeds", "graph2", "speeds2"] {
-                if !reloaded && part_key.ends_with('2') {
+            if val.get("bigspeeds").is_some() {
+                *reach.entry("tables_of_a_megabyte_or_more".into()).or_insert(0) += 1;
+            }
+            for part_key in ["graph", "speeds", "graph2", "speeds2", "bigspeeds"] {
+                if (!reloaded && part_key.ends_with('2')) || val.get(part_key).is_none() {
                     continue;
                 }
-                let part = part_key.trim_end_matches('2');
+                let part = if part_key == "bigspeeds" { "speeds" } else { part_key.trim_end_matches('2') };
                 let empty_ok = if part_key.ends_with('2') { val["ne2"].as_u64() == Some(0) } else { empty_ok };
                 let x = &val[part_key];
                 if let Some(e) = x.get("error") {
